@@ -180,6 +180,9 @@ def make_modules(sim):
 
         def put(self, item, *a, **kw):
             me = sim.me()
+            # a scheduling point of its own: a thread can be preempted between releasing a lock and the put that
+            # follows (or between the test that led here and the put)
+            sim.sync(lambda: True)
             self.items.append(item)
             if item is not None:
                 sim.region_put.add(me)
